@@ -1,36 +1,18 @@
 import ProductMD.Driver.Proto
-import ProductMD.Model.Regex
-import ProductMD.Generated.Regexes
-import ProductMD.Generated.Tables
+import ProductMD.Generated.AllOps
 /-!
 Model driver: one JSON object per input line `{"op": .., "args": {..}}`, one JSON value per output line.
-Every op calls the very definitions the theorems in `Properties/` are about.
+Every op calls the very definitions the theorems in `Properties/` are about.  The op table is the
+concatenation of every `Driver/Ops*.lean` (`Generated/AllOps.lean` is written by tools/translate.py).
 -/
 namespace PM.Driver
 open Lean PM
 
-def findPattern (name : String) : Option Re :=
-  (Gen.allPatterns.find? (·.1 == name)).map (·.2.2)
-
-def jcaps (c : Caps) : Json :=
-  Json.arr ((c.map fun p => Json.arr #[jnat p.1, jstr p.2]).toArray)
-
-def opRegex (op : String) (a : Json) : Json :=
-  match findPattern (String.ofList (getStrD a "pattern")) with
-  | none => jerr "unknown-pattern"
-  | some r =>
-    let s := getStrD a "s"
-    match op with
-    | "re_matches" => Json.bool (pyMatches r s)
-    | "re_match" => jopt jcaps (pyMatch r s)
-    | "re_cost" => jnat (pyCost r s)
-    | _ => jerr "bad-op"
-
 def dispatch (op : String) (a : Json) : Json :=
-  match op with
-  | "ping" => Json.str "pong"
-  | "re_matches" | "re_match" | "re_cost" => opRegex op a
-  | _ => jerr "bad-op"
+  if op == "ping" then Json.str "pong" else
+  match Gen.allOps.find? (·.1 == op) with
+  | some (_, f) => f a
+  | none => jerr "bad-op"
 
 partial def loop (hin : IO.FS.Stream) (hout : IO.FS.Stream) : IO Unit := do
   let line ← hin.getLine
